@@ -24,8 +24,37 @@ Section ParserThm.
   (* what is assumed of the UNMODIFIED parser functions: they consume the token stream forwards, and parse_statement uses the
      recursive subparse it is given only on tokens of its own input *)
   Hypothesis pt_fwd : forall toks e rest, pt toks = Some (e, rest) -> tsuffix rest toks.
-  Hypothesis ps_fwd : forall cb toks ss rest, ps cb toks = Some (ss, rest) -> tsuffix rest toks.
-  Hypothesis ps_local : forall cb1 cb2 toks, (forall ends t, tsuffix t toks -> cb1 ends t = cb2 ends t) -> ps cb1 toks = ps cb2 toks.
+  Hypothesis ps_fwd : forall cb toks ss rest,
+      (forall ends t ns r, cb ends t = Some (ns, r) -> tsuffix r t) -> ps cb toks = Some (ss, rest) -> tsuffix rest toks.
+  Hypothesis ps_local : forall cb1 cb2 toks,
+      (forall ends t ns r, cb2 ends t = Some (ns, r) -> tsuffix r t) ->
+      (forall ends t, tsuffix t toks -> cb1 ends t = cb2 ends t) -> ps cb1 toks = ps cb2 toks.
+
+  Section Fwd.
+  Variables mv mb : str -> option str.
+
+  (* the recursive subparse itself consumes forwards *)
+  Lemma subparse_fwd : forall fuel ends toks ns r, subparse E St mv mb pt ps fuel ends toks = Some (ns, r) -> tsuffix r toks.
+  Proof.
+    induction fuel as [|f IH]; intros ends toks ns r H; [discriminate|]. destruct toks as [|[k v] rest]; cbn [subparse] in H.
+    - inversion H; subst. apply tsuffix_refl.
+    - destruct (str_eqb k K_DATA).
+      + destruct (subparse E St mv mb pt ps f ends rest) as [[ns0 r0]|] eqn:Esub; [|discriminate]. inversion H; subst.
+        eapply tsuffix_trans; [eapply IH; eauto|apply tsuffix_tail].
+      + destruct (str_eqb k n_variable).
+        * destruct (pt rest) as [[e [|[k2 v2] rest2]]|] eqn:Ept; try discriminate.
+          destruct (str_eqb k2 K_VAREND); [|discriminate].
+          destruct (subparse E St mv mb pt ps f ends rest2) as [[ns0 r0]|] eqn:Esub; [|discriminate]. inversion H; subst.
+          apply pt_fwd in Ept. eapply tsuffix_trans; [eapply IH; eauto|]. eapply tsuffix_trans; [eapply tsuffix_cons; eauto|apply tsuffix_tail].
+        * destruct (str_eqb k n_block); [|discriminate]. destruct rest as [|t r0]; [discriminate|].
+          destruct (is_end_name ends t); [inversion H; subst; apply tsuffix_tail|].
+          destruct (ps (subparse E St mv mb pt ps f) (t :: r0)) as [[stmts [|[k2 v2] rest2]]|] eqn:Eps; try discriminate.
+          destruct (str_eqb k2 K_BLOCKEND); [|discriminate].
+          destruct (subparse E St mv mb pt ps f ends rest2) as [[ns0 r1]|] eqn:Esub; [|discriminate]. inversion H; subst.
+          apply ps_fwd in Eps; [|intros; eapply IH; eauto].
+          eapply tsuffix_trans; [eapply IH; eauto|]. eapply tsuffix_trans; [eapply tsuffix_cons; eauto|apply tsuffix_tail].
+  Qed.
+  End Fwd.
 
   Variables mv mb : str -> option str.
 
@@ -51,7 +80,8 @@ Section ParserThm.
       rewrite (ps_local (subparse E St mv mb pt ps f) (subparse E St never never pt ps f) (t :: r)).
       + destruct (ps _ (t :: r)) as [[stmts [|[k2 v2] rest2]]|] eqn:Eps; try reflexivity.
         destruct (str_eqb k2 K_BLOCKEND); [|reflexivity]. rewrite IH; [reflexivity|].
-        eapply no_marker_suffix; [|exact Hrest]. apply ps_fwd in Eps. eapply tsuffix_cons; eauto.
+        eapply no_marker_suffix; [|exact Hrest]. apply ps_fwd in Eps; [|intros; eapply (subparse_fwd never never f); eauto]. eapply tsuffix_cons; eauto.
+      + intros; eapply (subparse_fwd never never f); eauto.
       + intros e0 t0 Hs. apply IH. eapply no_marker_suffix; eauto.
   Qed.
 
@@ -156,8 +186,11 @@ Section PipelineThm.
   Variable pt : list xtok -> option (E * list xtok).
   Variable ps : (list str -> list xtok -> option (list (pnode E St) * list xtok)) -> list xtok -> option (list St * list xtok).
   Hypothesis pt_fwd : forall toks e rest, pt toks = Some (e, rest) -> tsuffix rest toks.
-  Hypothesis ps_fwd : forall cb toks ss rest, ps cb toks = Some (ss, rest) -> tsuffix rest toks.
-  Hypothesis ps_local : forall cb1 cb2 toks, (forall ends t, tsuffix t toks -> cb1 ends t = cb2 ends t) -> ps cb1 toks = ps cb2 toks.
+  Hypothesis ps_fwd : forall cb toks ss rest,
+      (forall ends t ns r, cb ends t = Some (ns, r) -> tsuffix r t) -> ps cb toks = Some (ss, rest) -> tsuffix rest toks.
+  Hypothesis ps_local : forall cb1 cb2 toks,
+      (forall ends t ns r, cb2 ends t = Some (ns, r) -> tsuffix r t) ->
+      (forall ends t, tsuffix t toks -> cb1 ends t = cb2 ends t) -> ps cb1 toks = ps cb2 toks.
   Variable ev : E -> C -> option V.
   Variable text : V -> str.
   Variable rs : (list (pnode E St) -> C -> option (str * C)) -> St -> C -> option (str * C).
